@@ -121,11 +121,15 @@ Theorem chk_class_zero_frag :
   forall names ci e, chk_class names ci e = 0 -> (atoms e <= 30)%nat -> chk_frag ci e = true.
 Proof. exact chk_class_zero_frag_l. Qed.
 
+(* UPDATE SET column = expression (SUpdE: key-moving multi-row updates) is modelled
+   (Model/ConstrImpl.v do_update_e), judged by the reference and compared on every run, but lies
+   outside the theorems above: stmt_class gives it the side condition 21.  Class 20 = such an
+   UPDATE refused only because its new values are held by rows the same statement moves away. *)
 (* every OPEN finding class is a genuine failure: a history as the real database answered it,
    reproduced by the implementation model, refused by the reference, in the stated class *)
 Theorem constraints_refuted :
   refutes 1 wit_1 /\ refutes 2 wit_2 /\ refutes 3 wit_3 /\ refutes 4 wit_4 /\ refutes 10 wit_10 /\
-  refutes 15 wit_15.
+  refutes 15 wit_15 /\ refutes 20 wit_20.
 Proof. exact constraints_refuted_l. Qed.
 
 (* the witnesses of the eight classes repaired in /repo (6de60fd DML scans skip tombstones: 11;
@@ -158,7 +162,7 @@ Check update_exact : forall sch st t sets w, wf_schema sch -> Inv sch st -> stmt
 Check constraints_exact : forall sch steps, wf_schema sch -> side_class (Hist sch steps) = 0 -> model_agrees (Hist sch steps) = true -> spec_ok (Hist sch steps) = true.
 Check model_refines_spec : forall sch h tr, wf_schema sch -> hist_class sch h = 0 -> spec_run sch db_empty h = Some tr -> impl_trace sch (d_empty sch) h = map (fun p => (Some (fst p), snd p)) tr.
 Check chk_class_zero_frag : forall names ci e, chk_class names ci e = 0 -> (atoms e <= 30)%nat -> chk_frag ci e = true.
-Check constraints_refuted : refutes 1 wit_1 /\ refutes 2 wit_2 /\ refutes 3 wit_3 /\ refutes 4 wit_4 /\ refutes 10 wit_10 /\ refutes 15 wit_15.
+Check constraints_refuted : refutes 1 wit_1 /\ refutes 2 wit_2 /\ refutes 3 wit_3 /\ refutes 4 wit_4 /\ refutes 10 wit_10 /\ refutes 15 wit_15 /\ refutes 20 wit_20.
 Check former_classes_repaired : repaired wit_11 /\ repaired wit_12 /\ repaired wit_13 /\ repaired wit_14 /\ repaired wit_16 /\ repaired wit_17 /\ repaired wit_18 /\ repaired wit_19.
 Check inv_initial : forall sch, Inv sch (d_empty sch).
 Print Assumptions spec_accepts_iff_valid.
